@@ -538,100 +538,145 @@ func runC08R4(c *eng.Ctx, r *eng.RuleCtx) {
 	f := p.FuncOf(fobj)
 	c.Touch(f)
 	info := f.Pkg.TypesInfo
+	g := p.GraphOf(f)
+	body := f.Decl.Body
+	sig := fobj.Type().(*types.Signature)
 	filterResult := p.Field(pkgKemT, "ObjectAndFilterResult", "FilterResult")
 	calc := p.ExtObject(full("pkg/utils/checksum"), "CalculateChecksum")
-	objPrm := paramLike(fobj.Type().(*types.Signature), 3, typeNamed("unstructured", "Unstructured"))
-	n := 0
-	eng.InspectNoLit(f.Decl.Body, func(m ast.Node) bool {
-		as, ok := m.(*ast.AssignStmt)
-		if !ok || len(as.Lhs) != 1 || len(as.Rhs) != 1 {
-			return true
-		}
-		s, isS := ast.Unparen(as.Lhs[0]).(*ast.SelectorExpr)
-		if !isS || s.Sel.Name != "Checksum" {
-			return true
-		}
-		n++
-		construct := fmt.Sprintf("%s checksum#%d", f.Key, n)
-		// the stored checksum: CalculateChecksum(string(json.Marshal(V))) directly, or a local every value of which is
-		// such a call (the empty string of an error path that returns is ignored)
-		var calls []*ast.CallExpr
-		okSrc := true
-		var collect func(e ast.Expr, depth int)
-		collect = func(e ast.Expr, depth int) {
-			e = ast.Unparen(e)
-			if cl, isC := e.(*ast.CallExpr); isC && eng.CalleeOf(info, cl) == calc && len(cl.Args) == 1 {
-				calls = append(calls, cl)
-				return
+	objPrm := paramLike(sig, 3, typeNamed("unstructured", "Unstructured"))
+	jqPrm := paramLike(sig, 0, func(t types.Type) bool { b, ok := t.Underlying().(*types.Basic); return ok && b.Kind() == types.String })
+	fnPrm := paramLike(sig, 2, func(t types.Type) bool { _, ok := t.Underlying().(*types.Signature); return ok })
+	if objPrm == nil || jqPrm == nil || fnPrm == nil {
+		r.Unknown(f.Key+" parameters", f.Decl.Pos(), "the jq expression, the filter function and the object are not all parameters of applyFilter")
+		return
+	}
+	// the three kinds of projection, decided by the parameters alone
+	type scen struct {
+		name           string
+		fnSet, jqEmpty int // +1 / -1 / 0 (not fixed)
+		wantFilter     bool
+	}
+	for _, sc := range []scen{{"filterFunc", +1, 0, true}, {"no filter", -1, +1, false}, {"jqFilter", -1, -1, true}} {
+		assumed := func(fc eng.Fact) bool {
+			x, y, eq, ok := eng.EqAtom(fc)
+			if !ok {
+				return false
 			}
-			if v, isK := eng.ConstStr(info, e); isK && v == "" {
-				return
-			}
-			if lv, isV := eng.SelObj(info, e).(*types.Var); isV && !lv.IsField() && depth < 3 {
-				if _, isIdent := e.(*ast.Ident); isIdent {
-					es := eng.AssignedExprs(info, f.Decl.Body, lv)
-					if len(es) > 0 {
-						for _, x := range es {
-							collect(x, depth+1)
-						}
-						return
-					}
+			for _, pair := range [][2]ast.Expr{{x, y}, {y, x}} {
+				if eng.SelObj(info, pair[0]) == types.Object(fnPrm) && eng.IsNil(info, pair[1]) && sc.fnSet != 0 {
+					return eq == (sc.fnSet < 0)
+				}
+				if v, isK := eng.ConstStr(info, pair[1]); isK && v == "" && eng.SelObj(info, pair[0]) == types.Object(jqPrm) && sc.jqEmpty != 0 {
+					return eq == (sc.jqEmpty > 0)
 				}
 			}
-			okSrc = false
+			return false
 		}
-		collect(as.Rhs[0], 0)
-		if !okSrc || len(calls) == 0 {
-			r.Bad(construct, as.Pos(), "the checksum is not computed with CalculateChecksum")
-			return true
-		}
-		block := enclosingBlockOf(f.Decl.Body, as.Pos())
-		var marshalled types.Object
-		okMarshal := true
-		for _, call := range calls {
-			// string(b)
+		inf := g.Infeasible(assumed)
+		feasible := g.Reach(eng.Query{FromEntry: true, Assume: assumed, AvoidEdge: inf})
+		construct := fmt.Sprintf("%s checksum[%s]", f.Key, sc.name)
+		nret := 0
+		for _, rn := range g.Nodes {
+			ret, isR := rn.Node.(*ast.ReturnStmt)
+			if !isR || !feasible[rn] || len(ret.Results) != 2 || eng.IsNil(info, ret.Results[0]) {
+				continue
+			}
+			nret++
+			resV, _ := eng.SelObj(info, ret.Results[0]).(*types.Var)
+			if resV == nil {
+				r.Unknown(construct, ret.Pos(), "the result is not returned through a local variable")
+				continue
+			}
+			// stores into the result that reach this return: Checksum and FilterResult
+			last := func(isField func(ast.Expr) bool, litKey string) (val ast.Expr, at *eng.GNode, n int) {
+				var bare bool
+				val, at, n, bare = reachingFieldStore(g, info, rn, resV, isField, litKey, assumed)
+				if bare && n > 0 {
+					n += 100 // stored on some paths only
+				}
+				return
+			}
+			sumVal, sumAt, nSum := last(func(e ast.Expr) bool {
+				s, ok := ast.Unparen(e).(*ast.SelectorExpr)
+				return ok && s.Sel.Name == "Checksum"
+			}, "")
+			if nSum != 1 {
+				r.Bad(construct, ret.Pos(), fmt.Sprintf("%d stores of the checksum reach this return (expected exactly one)", nSum))
+				continue
+			}
+			frVal, frAt, nFr := last(func(e ast.Expr) bool {
+				s, ok := ast.Unparen(e).(*ast.SelectorExpr)
+				return ok && info.Uses[s.Sel] == types.Object(filterResult)
+			}, "FilterResult")
+			if nFr > 1 {
+				r.Bad(construct, ret.Pos(), "several stores of FilterResult reach this return")
+				continue
+			}
+			// checksum = CalculateChecksum(string(B)), B = json.Marshal(V)
+			src, at, _, uniq := valueAt(g, info, body, sumAt, sumVal, assumed)
+			call, isCall := src.(*ast.CallExpr)
+			if !uniq || !isCall || eng.CalleeOf(info, call) != calc || len(call.Args) != 1 {
+				r.Bad(construct, ret.Pos(), "the checksum is not computed with CalculateChecksum")
+				continue
+			}
 			conv, isConv := ast.Unparen(call.Args[0]).(*ast.CallExpr)
 			if !isConv || len(conv.Args) != 1 {
-				r.Bad(construct, as.Pos(), "the checksum argument is not string(bytes)")
-				return true
+				r.Bad(construct, ret.Pos(), "the checksum argument is not string(bytes)")
+				continue
 			}
-			bv, _ := eng.SelObj(info, conv.Args[0]).(*types.Var)
-			var m1 types.Object
-			if bv != nil {
-				for _, e := range eng.AssignedExprs(info, f.Decl.Body, bv) {
-					if cl, ok := ast.Unparen(e).(*ast.CallExpr); ok && eng.IsPkgFunc(eng.CalleeOf(info, cl), "encoding/json", "Marshal") && len(cl.Args) == 1 {
-						m1 = eng.SelObj(info, cl.Args[0])
+			bsrc, bat, tup, buniq := valueAt(g, info, body, at, conv.Args[0], assumed)
+			mcall, isM := bsrc.(*ast.CallExpr)
+			if !buniq || !isM || tup != 0 || !eng.IsPkgFunc(eng.CalleeOf(info, mcall), "encoding/json", "Marshal") || len(mcall.Args) != 1 {
+				r.Bad(construct, ret.Pos(), "the checksummed bytes do not come from json.Marshal of a value on this path")
+				continue
+			}
+			vsrc, vat, vtup, vuniq := valueAt(g, info, body, bat, mcall.Args[0], assumed)
+			same := func(e1 ast.Expr, n1 *eng.GNode, t1 int, e2 ast.Expr, n2 *eng.GNode, t2 int) bool {
+				if e1 == nil || e2 == nil {
+					return false
+				}
+				if o1, o2 := eng.SelObj(info, e1), eng.SelObj(info, e2); o1 != nil && o1 == o2 {
+					if _, isId := ast.Unparen(e1).(*ast.Ident); isId {
+						return true
 					}
 				}
+				return e1 == e2 && n1 == n2 && t1 == t2
 			}
-			if m1 == nil || (marshalled != nil && marshalled != m1) {
-				okMarshal = false
+			if !sc.wantFilter {
+				none := nFr == 0
+				if nFr == 1 {
+					fsrc, _, _, funiq := valueAt(g, info, body, frAt, frVal, assumed)
+					none = funiq && (fsrc == nil || eng.IsNil(info, fsrc))
+				}
+				r.Check(vuniq && none && eng.SelObj(info, vsrc) == types.Object(objPrm), construct, ret.Pos(), "no filter: checksum over the whole object, no filterResult", "without a filter the checksum is not computed over the whole object (or a filterResult is stored)")
+				continue
 			}
-			marshalled = m1
-		}
-		if !okMarshal || marshalled == nil {
-			r.Bad(construct, as.Pos(), "the checksummed bytes do not come from json.Marshal of a value in the same branch")
-			return true
-		}
-		// FilterResult store in the same block
-		var stored types.Object
-		hasStore := false
-		ast.Inspect(block, func(x ast.Node) bool {
-			if st, ok := x.(*ast.AssignStmt); ok && len(st.Lhs) == 1 && eng.IsField(info, st.Lhs[0], filterResult) {
-				hasStore = true
-				stored = eng.SelObj(info, st.Rhs[0])
+			if nFr != 1 {
+				r.Bad(construct, ret.Pos(), "with a filter no FilterResult is stored")
+				continue
 			}
-			return true
-		})
-		if hasStore {
-			r.Check(stored == marshalled, construct, as.Pos(), "checksum over the value stored as FilterResult", "the checksum is computed over a different value than the one stored as FilterResult: a change inside the projection may not trigger, or a change outside it does")
-		} else {
-			r.Check(marshalled == objPrm, construct, as.Pos(), "no filter: checksum over the whole object", "without a filter the checksum is not computed over the whole object")
+			fsrc, fat, ftup, funiq := valueAt(g, info, body, frAt, frVal, assumed)
+			r.Check(vuniq && funiq && same(vsrc, vat, vtup, fsrc, fat, ftup), construct, ret.Pos(), "checksum over the value stored as FilterResult", "the checksum is computed over a different value than the one stored as FilterResult: a change inside the projection may not trigger, or a change outside it does")
 		}
-		return true
-	})
-	if n == 0 {
-		r.Unknown(f.Key, f.Decl.Pos(), "no checksum assignment found")
+		if nret == 0 {
+			r.Unknown(construct, f.Decl.Pos(), "no successful return is feasible for this kind of filter")
+		}
+	}
+}
+
+// rootIs: e is a selection chain (x.a.b) whose root identifier is v.
+func rootIs(info *types.Info, e ast.Expr, v *types.Var) bool {
+	for {
+		switch t := ast.Unparen(e).(type) {
+		case *ast.SelectorExpr:
+			e = t.X
+		case *ast.StarExpr:
+			e = t.X
+		case *ast.Ident:
+			return info.ObjectOf(t) == types.Object(v)
+		default:
+			return false
+		}
 	}
 }
 
